@@ -428,6 +428,21 @@ func (e *menv) condVariants(r *rec.Rand, full bool) []tcase {
 			nm.Set(p.Name, scen.C18NearMiss(r, p.Type, 0))
 			out = append(out, tcase{HasCond: true, CondName: c.Name, Ctx: nm, Tag: "nearmiss"})
 		}
+		// container parameters: each alone (the context that is cast first decides what a per-type
+		// cache would hold), and each with a value that fits a SIBLING of the same container type
+		for _, p := range c.Params {
+			if p.Type.Elem == nil {
+				continue
+			}
+			one := scen.NewC18Ctx()
+			one.Set(p.Name, scen.C18NonEmptyFit(r, p.Type))
+			out = append(out, tcase{HasCond: true, CondName: c.Name, Ctx: one, Tag: "oneparam"})
+			for _, q := range c.C18Siblings(p) {
+				sc := scen.NewC18Ctx()
+				sc.Set(p.Name, scen.C18NonEmptyFit(r, q.Type))
+				out = append(out, tcase{HasCond: true, CondName: c.Name, Ctx: sc, Tag: "siblingfit"})
+			}
+		}
 		// unknown parameter
 		uc := fit.Clone()
 		uc.Set(rec.Pick(r, []string{"zz", "X", "x ", "k\x03"}), scen.C18RandVal(r, 1))
@@ -847,17 +862,217 @@ func runModel(ctx context.Context, w *rec.Writer, seed uint64, i int, tier strin
 	for _, g := range groups {
 		all = append(all, g.cases...)
 	}
-	for b := 0; b < bud.batches; b++ {
-		gi := len(groups) + b
+	// context typing must not depend on what was validated before (fresh typesystem per sequence)
+	var allObs []int
+	for gi := range groups {
+		for k := range groups[gi].cases {
+			allObs = append(allObs, observed[gi][k].direct)
+		}
+	}
+	hpairs := e.history(ctx, w, r, all, allObs, mdesc{Seed: seed, I: i, W: witness, G: -1, Tier: tier, Shape: m.Shape})
+	nextG := len(groups)
+	emitFor := func(kind string) func(vs ...rec.V) {
+		gi := nextG
+		nextG++
 		if only >= 0 && gi != only {
-			// keep the random stream aligned
-			e.batch(ctx, w, r, accepted, all, nil)
+			return nil
+		}
+		d := mdesc{Seed: seed, I: i, W: witness, G: gi, Tier: tier, Shape: m.Shape, Pair: kind, Text: text, NT: true}
+		return func(vs ...rec.V) {
+			w.Case(d, append([]rec.V{rec.I(2), envV, modelV, cdsV, rec.I(ctxLimit), rec.I(maxWrite)}, vs...)...)
+		}
+	}
+	e.mixedBatches(ctx, w, r, accepted, all, allObs, emitFor)
+	e.pairBatches(ctx, w, r, hpairs, emitFor)
+	for b := 0; b < bud.batches; b++ {
+		e.batch(ctx, w, r, accepted, all, emitFor("random"))
+	}
+}
+
+// fresh validates the tuples in order on a typesystem of their own.
+func (e *menv) fresh(ts []tcase) []int {
+	tsys, err := typesystem.New(e.m.Proto())
+	if err != nil {
+		panic(err)
+	}
+	out := make([]int, len(ts))
+	for k, t := range ts {
+		out[k] = classify(validation.ValidateTupleForWrite(tsys, t.proto()))
+	}
+	return out
+}
+
+// history: for every condition, all context variants of one user the condition is allowed for are
+// validated (a) alone, (b) after another variant, in both orders, each sequence on a fresh
+// typesystem; the answers must be those of (a), and those observed on the shared typesystem.
+// Returns (A, B) pairs for the Write-level version.
+func (e *menv) history(ctx context.Context, w *rec.Writer, r *rec.Rand, all []tcase, allObs []int, d mdesc) [][2]tcase {
+	var pairs [][2]tcase
+	for _, c := range e.m.Conds {
+		carrier := -1
+		for k, t := range all {
+			if t.HasCond && t.CondName == c.Name && allObs[k] == clOK && t.Tag == "fit" && t.User != t.Obj+"#"+t.Rel {
+				carrier = k
+				break
+			}
+		}
+		if carrier < 0 {
 			continue
 		}
-		d := mdesc{Seed: seed, I: i, W: witness, G: gi, Tier: tier, Shape: m.Shape, Text: text, NT: true}
-		e.batch(ctx, w, r, accepted, all, func(vs ...rec.V) {
-			w.Case(d, append([]rec.V{rec.I(2), envV, modelV, cdsV, rec.I(ctxLimit), rec.I(maxWrite)}, vs...)...)
-		})
+		ct := all[carrier]
+		var cands []tcase
+		var shared []int
+		for k, t := range all {
+			if t.HasCond && t.CondName == c.Name && t.Obj == ct.Obj && t.Rel == ct.Rel && t.User == ct.User && t.Tag != "sized" {
+				cands = append(cands, t)
+				shared = append(shared, allObs[k])
+			}
+		}
+		single := make([]int, len(cands))
+		for k, t := range cands {
+			single[k] = e.fresh([]tcase{t})[0]
+			w.Stat("history_single", 1)
+			if single[k] != shared[k] {
+				w.PropFail(fmt.Sprintf("validation depends on history: %s (condition %s, variant %s, context %v) is %s on a fresh typesystem and %s on the one that validated other tuples before",
+					t.key(), t.CondName, t.Tag, ctxMap(t), clNames[single[k]], clNames[shared[k]]), d)
+			}
+		}
+		var okIdx []int
+		for k := range cands {
+			if single[k] == clOK {
+				okIdx = append(okIdx, k)
+			}
+		}
+		for b, tb := range cands {
+			a := r.Intn(len(cands))
+			if len(okIdx) > 0 && r.Chance(3, 4) {
+				a = rec.Pick(r, okIdx) // an accepted context primes whatever state there is
+			}
+			ta := cands[a]
+			for _, seq := range [][2]int{{a, b}, {b, a}} {
+				got := e.fresh([]tcase{cands[seq[0]], cands[seq[1]]})
+				w.Stat("history_sequences", 1)
+				for pos := 0; pos < 2; pos++ {
+					if got[pos] != single[seq[pos]] {
+						t := cands[seq[pos]]
+						o := cands[seq[1-pos]]
+						w.PropFail(fmt.Sprintf("validation depends on history: %s (condition %s, context %v) is %s alone but %s at position %d of a sequence with context %v",
+							t.key(), t.CondName, ctxMap(t), clNames[single[seq[pos]]], clNames[got[pos]], pos, ctxMap(o)), d)
+					}
+				}
+			}
+			if single[a] == clOK && (tb.Tag == "siblingfit" || tb.Tag == "nearmiss" || tb.Tag == "oneparam" || r.Chance(1, 6)) {
+				pairs = append(pairs, [2]tcase{ta, tb})
+			}
+		}
+	}
+	return pairs
+}
+
+func ctxMap(t tcase) any {
+	if t.Ctx == nil {
+		return nil
+	}
+	return t.Ctx.Map()
+}
+
+// mixedBatches: Write requests of 2-5 tuples in which ONE tuple (or delete) is invalid, for every
+// invalidity class at the first, a middle and the last position, the others valid: the request
+// must be refused and nothing stored.
+func (e *menv) mixedBatches(ctx context.Context, w *rec.Writer, r *rec.Rand, accepted, all []tcase, allObs []int,
+	emitFor func(string) func(vs ...rec.V)) {
+	if len(accepted) == 0 {
+		return
+	}
+	filler := func(k int) tcase {
+		t := rec.Pick(r, accepted)
+		ot, _ := scen.SplitObj(t.Obj)
+		t.Obj = fmt.Sprintf("%s:m%d", ot, k)
+		return t
+	}
+	byClass := map[string][]tcase{}
+	for k, t := range all {
+		self := t.User == t.Obj+"#"+t.Rel
+		switch {
+		case self && allObs[k] == clOK:
+			byClass["self"] = append(byClass["self"], t)
+		case t.Tag == "sized" && allObs[k] == clOK && t.size() > ctxLimit:
+			byClass["oversize"] = append(byClass["oversize"], t)
+		case allObs[k] != clOK && !self:
+			byClass[clNames[allObs[k]]] = append(byClass[clNames[allObs[k]]], t)
+		}
+	}
+	for _, cl := range []string{"self", "oversize", "type_not_found", "relation_not_found", "invalid_tuple", "invalid_conditional_tuple"} {
+		ts := byClass[cl]
+		for pos := 0; pos < 3; pos++ {
+			emit := emitFor("mixed-" + cl + "-" + []string{"first", "middle", "last"}[pos])
+			if len(ts) == 0 {
+				continue
+			}
+			bad := rec.Pick(r, ts)
+			n := r.Range(2, 5)
+			if pos == 1 && n < 3 {
+				n = 3
+			}
+			at := []int{0, r.Range(1, n-2+boolInt(n < 3)), n - 1}[pos]
+			var writes []tcase
+			for k := 0; k < n; k++ {
+				if k == at {
+					writes = append(writes, bad)
+				} else {
+					writes = append(writes, filler(k))
+				}
+			}
+			e.execBatch(ctx, w, "mixed-"+cl, writes, nil, "", "", false, false, emit)
+		}
+	}
+	// a malformed user among the deletes
+	for pos := 0; pos < 3; pos++ {
+		emit := emitFor("mixed-delete-" + []string{"first", "middle", "last"}[pos])
+		bad := tcase{Obj: "doc:1", Rel: "viewer", User: rec.Pick(r, []string{"a b", "user:a#x#y", "us er:1", ":", "user:a:b"})}
+		var deletes []tcase
+		good := append([]tcase{}, e.resident...)
+		rec.Shuffle(r, good)
+		switch pos {
+		case 0:
+			deletes = append([]tcase{bad}, good...)
+		case 1:
+			if len(good) >= 2 {
+				deletes = append(append([]tcase{good[0]}, bad), good[1:]...)
+			} else {
+				deletes = append(good, bad)
+			}
+		default:
+			deletes = append(good, bad)
+		}
+		var writes []tcase
+		for k := 0; k < r.Range(0, 2); k++ {
+			writes = append(writes, filler(k))
+		}
+		e.execBatch(ctx, w, "mixed-delete", writes, deletes, "", "", false, false, emit)
+	}
+}
+
+func boolInt(b bool) int {
+	if b {
+		return 1
+	}
+	return 0
+}
+
+// pairBatches: two conditioned tuples of the same condition in one Write, in both orders.
+func (e *menv) pairBatches(ctx context.Context, w *rec.Writer, r *rec.Rand, pairs [][2]tcase, emitFor func(string) func(vs ...rec.V)) {
+	rec.Shuffle(r, pairs)
+	if len(pairs) > 10 {
+		pairs = pairs[:10]
+	}
+	for _, p := range pairs {
+		for ord := 0; ord < 2; ord++ {
+			a, b := p[ord], p[1-ord]
+			ot, _ := scen.SplitObj(a.Obj)
+			a.Obj, b.Obj = ot+":p0", ot+":p1"
+			e.execBatch(ctx, w, "pair", []tcase{a, b}, nil, "", "", false, false, emitFor("pair"))
+		}
 	}
 }
 
@@ -927,6 +1142,13 @@ func (e *menv) batch(ctx context.Context, w *rec.Writer, r *rec.Rand, accepted, 
 		od = ""
 	}
 	emptyWrites, emptyDeletes := r.Chance(1, 2), r.Chance(1, 2)
+	e.execBatch(ctx, w, "random", writes, deletes, od, om, emptyWrites, emptyDeletes, emit)
+}
+
+// execBatch runs one Write request (nothing when emit is nil: replay of another group), records
+// class and store before / after, and restores the resident tuples.
+func (e *menv) execBatch(ctx context.Context, w *rec.Writer, kind string, writes, deletes []tcase, od, om string,
+	emptyWrites, emptyDeletes bool, emit func(vs ...rec.V)) {
 	if emit == nil {
 		return
 	}
@@ -952,6 +1174,7 @@ func (e *menv) batch(ctx context.Context, w *rec.Writer, r *rec.Rand, accepted, 
 	after := e.readAll(ctx)
 	cl := writeClass(err)
 	w.Stat("batches", 1)
+	w.Stat("batches_"+kind, 1)
 	w.Stat(fmt.Sprintf("batch_class_%d", cl), 1)
 	if err != nil && !sameStore(before, after) {
 		w.PropFail(fmt.Sprintf("a rejected write request changed the store (%v)", err), nil)
@@ -1021,11 +1244,7 @@ func main() {
 			if json.Unmarshal(sc.Bytes(), &d) != nil || d.Tier == "" {
 				continue
 			}
-			g := d.G
-			if d.W && d.Shape == "" {
-				g = -1 // the whole witness model
-			}
-			runModel(ctx, w, d.Seed, d.I, d.Tier, g, d.W, resolver)
+			runModel(ctx, w, d.Seed, d.I, d.Tier, d.G, d.W, resolver) // g < 0: the whole model
 		}
 		return
 	}
